@@ -176,6 +176,24 @@ def edge_stats(g):
     return cov
 
 
+def interesting(G):
+    """sample selection: the walk with most hits on entries populated by other values/maps, distinct shapes and evictions"""
+    def score(w):
+        n = 0
+        for ei in w:
+            fk, act, tk = G.edges[ei]
+            if act["a"] != "Exec" or act["out"] != "ok":
+                n += 1 if act["a"] == "Exec" else 0
+                continue
+            if act["hit"] == "hit":
+                ent = G.states[tk]["c"][-1 if act["hit2"] == "-" else -2]
+                n += 2 if (ent[1] != act["p"] or ent[2] != act["m"]) else 0
+            if len(G.states[tk]["c"]) < len(G.states[fk]["c"]) + 1 and act["hit"] == "miss":
+                n += 2
+        return n + len({G.edges[ei][1]["sh"] for ei in w})
+    return score
+
+
 def report_mismatches(chk, mism, what):
     for m in mism:
         a = m["act"] if isinstance(m["act"], dict) else {"a": m["act"]}
@@ -219,7 +237,7 @@ def main(chk):
         if not cov.get(need):
             chk.machinery("vacuous: no edge of class %s" % need)
     report_mismatches(chk, mism, "engine with compiled cache diverges from StmtCache.tla / from the cache-less engine: ")
-    w = max(walks, key=len)
+    w = max(walks, key=interesting(G))
     sample = [dict(group=runs[G.states[G.edges[w[0]][0]]["g"]]["group"],
                    walk=["%s V%d %s -> %s" % (G.edges[ei][1]["sh"], G.edges[ei][1]["p"], G.edges[ei][1]["mode"], G.edges[ei][1]["hit"])
                          for ei in w])]
